@@ -124,8 +124,20 @@ def run(case):
         return "%s(%s) on %s rows %s%s" % (case["uf"], "operator" if use_op else "ufunc", dt, short(peek(RA(flat.copy(), list(lens))), 120),
                                            "" if kind == "unary" else ", other(%s, side %s) = %s" % (kind, side, short(other, 120)))
 
+    if must_refuse and "unsafe" in (recv, case.get("recv2")):
+        # refusals are switched off for this operand by design (safe_mode=False); whatever happens, the OTHER operand must not be touched
+        if not lists_same(peek(other), other_before):
+            return violated("%s: the mismatching operand was changed by the operation: %s, was %s" % (describe(), short(peek(other), 160), short(other_before, 160)), tags + ["operand-mutated"])
+        return undefined("refusals are switched off for this operand (safe_mode=False)", tags)
     if must_refuse:
         CTX.tick("c04:must-refuse")
+        # an array that came out of zeros_like / ones_like / empty_like is an operand like any other: the mismatch is refused there too
+        for like in (np.zeros_like, np.ones_like, np.empty_like):
+            la = attempt(like, ra)
+            if la.ok:
+                t_ = attempt(fn, la.value, other) if side == "R" else attempt(fn, other, la.value)
+                if t_.ok:
+                    return violated("np.%s(x) was combined with a ragged array of other row lengths (%s vs %s): %s" % (like.__name__, lens, blens, describe()), tags + ["like-operand-accepted"], got=short(t_.value))
         if a.ok:
             return violated("two ragged arrays with different row lengths %s and %s were combined: %s" % (lens, blens, describe()), tags, got=short(a.value))
         # the refusal leaves both operands as they were, and the first one still combines with a matching partner
